@@ -9,6 +9,7 @@ package main
 
 import (
 	"os"
+	"runtime"
 	"strconv"
 
 	"verifh/kit/vio"
@@ -20,6 +21,14 @@ func atoi(s string) int {
 		vio.Fatal("bad number %q", s)
 	}
 	return n
+}
+
+// workers: VERIF_WORKERS, else all cores (scrypt dominates; every session has its own wallet file).
+func workers() int {
+	if n, err := strconv.Atoi(os.Getenv("VERIF_WORKERS")); err == nil && n > 0 {
+		return n
+	}
+	return runtime.NumCPU()
 }
 
 func main() {
